@@ -37,6 +37,7 @@ type Program struct {
 	verifDir     string
 	closureNames map[*ssa.Function]string
 	variant      map[string]string // base contract name -> chosen alternative ("B")
+	foreignStores []string         // stores of this repository into package-level variables of other packages
 }
 
 // alternatives lists the functions that have an alternative contract name@B.
@@ -216,6 +217,45 @@ func loadProgram(repo, verifDir string) (*Program, error) {
 		}
 		P.funcs[n] = fn
 	}
+
+	// the package-boundary frame rule (havocForeign) rests on this: the repository never writes a
+	// package-level variable of another package
+	for fn := range ssautil.AllFunctions(prog) {
+		var home *types.Package
+		for f := fn; f != nil; f = f.Parent() {
+			if f.Pkg != nil {
+				home = f.Pkg.Pkg
+				break
+			}
+		}
+		if home == nil || !strings.HasPrefix(home.Path(), logPath) {
+			continue
+		}
+		for _, b := range fn.Blocks {
+			for _, in := range b.Instrs {
+				st, ok := in.(*ssa.Store)
+				if !ok {
+					continue
+				}
+				root := st.Addr
+				for {
+					switch x := root.(type) {
+					case *ssa.FieldAddr:
+						root = x.X
+						continue
+					case *ssa.IndexAddr:
+						root = x.X
+						continue
+					}
+					break
+				}
+				if g, ok := root.(*ssa.Global); ok && g.Pkg != nil && g.Pkg.Pkg != home {
+					P.foreignStores = append(P.foreignStores, fmt.Sprintf("%s writes %s", fn.String(), g.String()))
+				}
+			}
+		}
+	}
+	sort.Strings(P.foreignStores)
 
 	// contracts
 	P.spec = newSpecFile()
